@@ -86,15 +86,38 @@ def instances(  # pylint: disable=too-many-arguments,too-many-locals
     flexible: None = either, False = never, True = operations may get several
     eligible machines.  regular: None = either, True = all jobs equally long.
     """
+    wide_ok = max_total >= 20 and min_jobs <= 10
     family = draw(
         st.sampled_from(
-            ["general"] * 8 + ["classic"] * 2 + (["bench"] if benchmarks else [])
+            ["general"] * 8
+            + ["classic"] * 2
+            + (["bench"] if benchmarks else [])
+            + (["wide"] if wide_ok else [])
         )
     )
     if family == "bench":
         return benchmark_case(draw(st.sampled_from(list(benchmarks))))
     durs = _durations(zero_ok, max_duration)
-    if family == "classic":
+    if family == "wide":
+        # many short jobs on many machines: job ids and machine ids >= 10
+        # (two-digit ids), more entities than any other family has
+        n_j = draw(st.integers(10, 12))
+        n_m = draw(st.integers(11, 13))
+        is_flex = draw(st.booleans()) if flexible is None else flexible
+        budget = max_total
+        lengths = []
+        for j in range(n_j):
+            rest = n_j - j - 1
+            hi = max(1, min(2, budget - rest))
+            ln = 1 if regular else draw(st.integers(1, hi))
+            lengths.append(ln)
+            budget -= ln
+        high = st.integers(0, n_m - 1).map(lambda m, n_m=n_m: n_m - 1 - m)  # favours the highest ids
+        one = high.map(lambda m: [m])
+        mach = st.one_of(one, st.lists(high, min_size=2, max_size=3, unique=True)) if is_flex else one
+        machines = [[draw(mach) for _ in range(ln)] for ln in lengths]
+        durations = [[draw(durs) for _ in range(ln)] for ln in lengths]
+    elif family == "classic":
         n_m = draw(st.integers(1, min(max_machines, max_ops)))
         n_j = draw(
             st.integers(min_jobs, max(min_jobs, min(max_jobs, max_total // n_m)))
